@@ -215,8 +215,10 @@ func main() {
 			cases = append(cases, ks)
 		}
 	}
-	// an escaped quote keeps its backslash; a doubled quote stays doubled
-	for _, cse := range [][2]string{{`"a\"b"`, `a\"b`}, {`'a\'b'`, `a\'b`}, {"`a\\`b`", "a\\`b"}, {"´a\\´b´", "a\\´b"}, {`"a""b"`, `a""b`}, {`'a''b'`, `a''b`}} {
+	// an escaped quote keeps its backslash; a doubled quote stays doubled; a
+	// backslash in the last position (back-tick styles only) is just a backslash
+	for _, cse := range [][2]string{{`"a\"b"`, `a\"b`}, {`'a\'b'`, `a\'b`}, {"`a\\`b`", "a\\`b"}, {"´a\\´b´", "a\\´b"}, {`"a""b"`, `a""b`}, {`'a''b'`, `a''b`},
+		{"`a\\`", "a\\"}, {"´a\\´", "a\\"}, {"`C:\\dir\\`", "C:\\dir\\"}, {"`\\`", "\\"}} {
 		canon := "RETURN " + cse[0]
 		co := run(canon, nil)
 		m.Evaluations++
